@@ -201,9 +201,12 @@ func (met *cff2CharstringHandler) setVSIndex(index int) error {
 	vars := met.vars.ItemVariationDatas[index]
 	k := int32(len(vars.RegionIndexes)) // number of regions
 	met.scalars = append(met.scalars[:0], make([]float32, k)...)
+	regions := met.vars.VariationRegionList.VariationRegions
 	for i, regionIndex := range vars.RegionIndexes {
-		region := met.vars.VariationRegionList.VariationRegions[regionIndex]
-		met.scalars[i] = region.Evaluate(met.coords)
+		if int(regionIndex) >= len(regions) {
+			return fmt.Errorf("invalid region index %d in variation store", regionIndex)
+		}
+		met.scalars[i] = regions[regionIndex].Evaluate(met.coords)
 	}
 	return nil
 }
@@ -215,6 +218,9 @@ func (met *cff2CharstringHandler) blend(state *ps.Machine) error {
 	}
 	n := int32(state.ArgStack.Pop())
 	k := int32(len(met.scalars))
+	if n < 0 || n > state.ArgStack.Top {
+		return errors.New("invalid n argument for blend operator")
+	}
 	if state.ArgStack.Top < n*(k+1) {
 		return errors.New("missing arguments for blend operator")
 	}
